@@ -22,7 +22,7 @@ LEVEL = "exploration"
 RULE = ("scenario = 2..4 concurrent send_message callers on one stream pair (staggered starts, own timeouts) + peer answers in a "
         "generated permutation/timing + unrelated notifications/foreign responses; non-trivial = an answer was delivered while at "
         "least two callers were waiting")
-PROBES = ["in_phase_in_order_regime", "token_holder_next_to_plain_waiter", "all_answers_in_one_flush", "stdio_pair_on_fake_process", "int_and_digit_string_twin_ids", "answer_consumed_by_other_waiter", "answer_on_poll_edge", "answers_out_of_call_order", "answer_at_deadline"]
+PROBES = ["sse_pair_on_simulated_http", "answer_on_sse_event_stream", "answer_behind_burst_of_over_100_notifications", "in_phase_in_order_regime", "token_holder_next_to_plain_waiter", "all_answers_in_one_flush", "stdio_pair_on_fake_process", "int_and_digit_string_twin_ids", "answer_consumed_by_other_waiter", "answer_on_poll_edge", "answers_out_of_call_order", "answer_at_deadline"]
 TIERS = {"quick": {"runs": 25000, "wall": 45.0}, "thorough": {"runs": 2000000, "wall": 560.0}}
 ASSUMPTIONS = ["an answer is only sent after the peer has seen the request (a server cannot answer an id it has not received)"]
 SHRINK_LISTS = ["events"]
@@ -94,10 +94,25 @@ def generate(rng: random.Random, tier: str) -> dict:
             events = [{"t": t, "tie": 0, "hops": 0, "kind": "answer", "caller": i, "err": False} for i in order2]
         else:
             regime = None
+    carrier = rng.choice(["raw", "raw", "stdio"])
+    if regime is None and rng.random() < 0.06:
+        # one caller; the server flushes a burst of > 100 notifications and, behind it in the same write, the answer
+        regime = "burst_then_answer"
+        carrier = "stdio"
+        callers = callers[:1]
+        n = 1
+        c = callers[0]
+        t = rng.randrange(c["start"] + 1, c["start"] + int(c["timeout"] / TICK) - 1)
+        events = [{"t": t, "tie": 0, "hops": 0, "kind": "burst", "count": rng.choice([101, 150, 260])},
+                  {"t": t, "tie": 0, "hops": 0, "kind": "answer", "caller": 0, "err": False}]
+    post_lat = 1
+    if regime == "inphase" and rng.random() < 0.3:
+        carrier = "sse"
+        post_lat = rng.choice([1, 1, 30, 300])  # a slow acknowledgement lets the event overtake the 202
     for k, e in enumerate(events):
         e["m"] = f"mk{k}"
-    return {"v": 1, "uuid_seed": rng.getrandbits(40), "mode": rng.choice(["parse_message", "model_validate"]),
-            "carrier": rng.choice(["raw", "raw", "stdio"]), "regime": regime, "coalesce": rng.random() < 0.6,
+    return {"v": 1, "post_lat": post_lat, "uuid_seed": rng.getrandbits(40), "mode": rng.choice(["parse_message", "model_validate"]),
+            "carrier": carrier, "regime": regime, "coalesce": rng.random() < 0.6,
             "callers": callers, "events": events}
 
 
@@ -166,12 +181,54 @@ def execute(scn: dict) -> dict:
                 stack.enter_context(patched((anyio, "open_process", factory)))
                 r, w = await stack.enter_async_context(stdio.stdio_client(StdioParameters(command="sim-child", args=[])))
                 child = factory.children[0]
-                child.coalesce_reads = bool(scn.get("coalesce"))
+                child.coalesce_reads = bool(scn.get("coalesce")) or scn.get("regime") == "burst_then_answer"
+                st["_child"] = child
 
                 class _ChildSend:  # the "server side" of the pair is the fake child's stdout
                     def send_nowait(self, obj):
                         child.write_stdout([_json.dumps(st["_data"], ensure_ascii=False).encode() + b"\n"])
                 await body(sim, RecRecv(sim, r), RecSend(sim, w), _ChildSend())
+            return
+        if scn.get("carrier") == "sse":
+            # the pair handed out by sse_client(): requests are POSTed one after the other by the transport's sender, answers come on the event stream
+            import json as _json
+            import httpx as _httpx
+            from sim.fakes.http import SimHTTPTransport, make_client_class
+            ssemod = importlib.import_module("chuk_mcp.transports.sse.sse_client")
+            from chuk_mcp.transports.sse.parameters import SSEParameters
+            box = {}
+            st["_seen_by_server"] = {}
+
+            def keepalive():
+                sx = box.get("stream")
+                if sx is not None and not sx.closed:
+                    sx.push(b": ka\n\n")
+                    sim.at(sim.now() + 4.0, keepalive, tie=2)
+
+            def on_stream(stream, rec):
+                box["stream"] = stream
+                stream.push(b"event: endpoint\ndata: /messages/?session_id=s1\n\n")
+                sim.at(sim.now() + 4.0, keepalive, tie=2)
+
+            def server(rec):
+                if rec["method"] == "GET":
+                    return {"status": 200, "headers": {"content-type": "text/event-stream"}, "chunks": [], "stay_open": True, "on_stream": on_stream}
+                try:
+                    posted = _json.loads(rec["body"])
+                    st["_seen_by_server"].setdefault(_json.dumps(posted.get("id")), sim.now())
+                except Exception:
+                    pass
+                return {"latency": ticks(scn.get("post_lat", 1)), "status": 202, "chunks": [(0, b"Accepted")]}
+
+            transport = SimHTTPTransport(sim, server)
+            Client = make_client_class(lambda: transport)
+
+            class _SseSend:
+                def send_nowait(self, obj):
+                    box["stream"].push(("event: message\ndata: " + _json.dumps(st["_data"], ensure_ascii=False) + "\n\n").encode())
+            with patched((_httpx, "AsyncClient", Client)):
+                async with ssemod.sse_client(SSEParameters(url="http://sim.test", timeout=10.0)) as (r, w):
+                    await body(sim, RecRecv(sim, r), RecSend(sim, w), _SseSend())
             return
         to_client_send, to_client_recv = anyio.create_memory_object_stream(max(100, len(scn["events"]) + 10))
         from_client_send, _from_client_recv = anyio.create_memory_object_stream(100)
@@ -191,11 +248,25 @@ def execute(scn: dict) -> dict:
             return None
 
         def deliver(k, ev):
+            if ev["kind"] == "burst":
+                # unrelated notifications, all in one write (stdio carrier only)
+                import json as _json2
+                lines = b"".join(_json2.dumps({"jsonrpc": "2.0", "method": "notifications/message", "params": {"data": f"burst-{q}"}}).encode() + b"\n"
+                                 for q in range(ev["count"]))
+                st["_child"].write_stdout([lines])
+                sim.fault("notification_burst_over_100_in_one_flush")
+                return
             if ev["kind"] == "answer":
                 rid = rid_of(ev["caller"])
                 if rid is None:
                     sim.rec("peer", "unanswerable", None)
                     return
+                if "_seen_by_server" in st:
+                    import json as _json3
+                    if _json3.dumps(rid) not in st["_seen_by_server"]:
+                        sim.rec("peer", "unanswerable-not-posted-yet", None)  # the serial sender has not POSTed this request yet
+                        return
+                    sim.probe("answer_on_sse_event_stream")
                 if ev["err"]:
                     data = {"jsonrpc": "2.0", "id": rid, "error": {"code": -32000 - ev["caller"], "message": ev["m"]}}
                 else:
@@ -321,9 +392,20 @@ def execute(scn: dict) -> dict:
         elif actual[0] == "exception":
             V("unexpected-exception", actual[1], f"caller {i} raised {actual!r}")
         # (b) lost response
-        if first is not None and first["t"] < deadline and actual[0] == "timeout":
+        # on the SSE pair an answer pushed before the POST's 202 is handed over when the 202 arrives: that is when it reaches the read stream
+        eff_t = first["t"] if first is not None else None
+        if first is not None and "_seen_by_server" in st:
+            import json as _json4
+            seen_t = st["_seen_by_server"].get(_json4.dumps(first["data"].get("id")))
+            if seen_t is not None:
+                eff_t = max(eff_t, seen_t + ticks(scn.get("post_lat", 1)))
+                if eff_t > first["t"]:
+                    probe("sse_answer_pushed_before_the_202")
+        if first is not None and eff_t < deadline and actual[0] == "timeout":
             who = consumer.get(id(first["obj"]))
-            if scn.get("regime") == "inphase":
+            if scn.get("regime") == "burst_then_answer":
+                cause = "single-caller-behind-notification-burst:" + ("never-consumed" if who is None else "consumed")
+            elif scn.get("regime") == "inphase":
                 cause = "in-phase-in-order:" + ("never-consumed" if who is None else ("self" if who == f"caller-{i}" else "other-waiter"))
             elif who is None:
                 cause = "never-consumed"
@@ -341,10 +423,14 @@ def execute(scn: dict) -> dict:
         probe("answers_out_of_call_order")
     if scn.get("carrier") == "stdio":
         probe("stdio_pair_on_fake_process")
+    if scn.get("carrier") == "sse":
+        probe("sse_pair_on_simulated_http")
     if scn.get("regime") == "inphase":
         probe("in_phase_in_order_regime")
         if any(c.get("token") for c in callers) and not all(c.get("token") for c in callers):
             probe("token_holder_next_to_plain_waiter")
+    if scn.get("regime") == "burst_then_answer":
+        probe("answer_behind_burst_of_over_100_notifications")
     if scn.get("regime") == "one_flush":
         probe("all_answers_in_one_flush")
     mids = [c["mid"] for c in callers if c["mid"] is not None]
